@@ -26,8 +26,12 @@ pub fn cell(spec: &Value) -> Value {
     let opts: Vec<(String, String)> = if plain { vec![] } else { vec![("blksize".into(), blk.to_string()), ("windowsize".into(), ws.to_string())] };
     let eff_blk = if plain { 512 } else { blk };
     let mut seq = 0;
-    for len in lens {
+    let budget = Budget::new();
+    'cell: for len in lens {
         for mode in 0..3u8 {
+            if budget.over(&mut c) {
+                break 'cell;
+            }
             seq += 1;
             let data = body(len);
             let mut viol: Vec<(String, String)> = vec![];
